@@ -100,6 +100,12 @@ def attributable(f, what, detail):
         return False
     if f.get("first_run_has") and not any(re.search(f["first_run_has"], m) for m in detail.get("first_run_errors", [])):
         return False
+    if f.get("first_run_invalid") and not detail.get("first_run_errors"):
+        return False
+    if f.get("diff_only"):
+        diff = list(detail.get("only_first", [])) + list(detail.get("only_second", []))
+        if not diff or not all(re.search(f["diff_only"], m) for m in diff):
+            return False
     return True
 
 
